@@ -328,7 +328,7 @@ Definition mu_s (sc : script) (s : st) : nat :=
   match s_pc s with
   | SFin => 0 | SRet _ => 1 | SDone => 2 | SCtxChk => 3 | SDisc => 4
   | SRunClose | SSubFailClose => 5
-  | SSyncEnd => 6
+  | SSyncEnd _ => 6
   | SChk i => rw (skipn (S i) its) + 1
   | SDeliver i j n => (n - j) + 2 + rw (skipn (S i) its)
   | SItem i => rw (skipn i its) - 1
@@ -500,9 +500,11 @@ Definition inv4 (s : st) : Prop :=
 
 Lemma inv4_step sc s l s1 : inv4 s -> In (l, s1) (step true sc s) -> inv4 s1.
 Proof.
-  intros I H. destruct s; unfold inv4 in *; cbn in *;
+  intros I H.
+  destruct s as [spc0 att0 conn0 curcl0 err0 cpc0 cw0 cok0 xpc0 rcl0 hc0 sd0 cr0 cp0 nc0 ns0 bc0 bi0 bm0];
+  unfold inv4 in *; cbn in *;
   split_step H; crunch H; cbn in *; splitifs;
-  repeat match goal with v : bool |- _ => destruct v end; cbn in *;
+  try destruct rcl0; try destruct hc0; try destruct cr0; cbn in *;
   intuition (try congruence; try discriminate).
 Qed.
 
@@ -518,12 +520,6 @@ Theorem exactly_one_cancel_lemma sc s :
   (ncancel s <= 1) /\
   (ncancel s = 1 -> r_closed s = true /\ r_hascancel s = true).
 Proof.
-  intros H. destruct (inv4_reach _ _ H) as [_ [_ [I3 I4]]].
-  destruct (ctx_r s) eqn:E.
-  - repeat split; try lia; try tauto; apply I3; reflexivity.
-  - repeat split; try lia.
-    + apply I3 in H0. discriminate.
-    + apply I3 in H0. discriminate.
-    + rewrite I4 in H0; discriminate.
-    + rewrite I4 in H0; discriminate.
+  intros H. destruct (inv4_reach _ _ H) as [_ [_ [I3 I4]]]. rewrite I4.
+  destruct (ctx_r s); intuition (try lia; try discriminate).
 Qed.
